@@ -62,10 +62,16 @@ func (a *Analyzer) exec(ctx int, instr ssa.Instruction, st *State, depth int) []
 			}
 		}
 	case *ssa.Store:
+		if a.derefNil(ctx, v, v.Addr, s) {
+			return nil
+		}
 		if p, ok := a.val(s, ctx, v.Addr).(APtr); ok {
 			s.cells[p.cell] = a.val(s, ctx, v.Val)
 		}
 	case *ssa.FieldAddr:
+		if a.derefNil(ctx, v, v.X, s) {
+			return nil
+		}
 		base := a.val(s, ctx, v.X)
 		switch b := base.(type) {
 		case APtr:
@@ -232,6 +238,10 @@ func (a *Analyzer) execUn(ctx int, v *ssa.UnOp, s *State) {
 		}
 		a.set(s, ctx, v, a.freshFor(s, ctx, v))
 	case token.MUL: // load
+		if a.derefNil(ctx, v, v.X, s) {
+			s.dead = true
+			return
+		}
 		if p, ok := a.val(s, ctx, v.X).(APtr); ok {
 			if cv, ok := s.cells[p.cell]; ok {
 				a.set(s, ctx, v, cv)
@@ -373,4 +383,30 @@ func (a *Analyzer) execIndex(ctx int, v ssa.Value, xs, is ssa.Value, s *State) {
 		return
 	}
 	a.set(s, ctx, v, a.freshFor(s, ctx, v))
+}
+
+// derefNil records a nil-dereference obligation for a tracked pointer or
+// interface value: it fails when x is nil on this abstract path (for instance
+// the pointer result of a failed call used before the error is tested).
+// Untracked values (parameters, fields of external objects) carry no
+// obligation: their non-nil-ness is the caller's documented precondition.
+func (a *Analyzer) derefNil(ctx int, in ssa.Instruction, x ssa.Value, s *State) bool {
+	isNil, tracked := false, false
+	switch r := a.val(s, ctx, x).(type) {
+	case ANil:
+		isNil, tracked = true, true
+	case ARef:
+		tracked = true
+		isNil = s.nilx[r.id] == 1
+	}
+	if !tracked {
+		return false
+	}
+	a.oblige(in, "nil-deref", "*"+x.Name(), !isNil, s)
+	return isNil
+}
+
+func isErrorType(t types.Type) bool {
+	n, ok := types.Unalias(t).(*types.Named)
+	return ok && n.Obj().Pkg() == nil && n.Obj().Name() == "error"
 }
